@@ -213,8 +213,95 @@ def keys_case(draw, tier):
     return {"kind": "keys", "start": start, "end": end, "F": F, "ks": ks_script, "d": d_script}
 
 
+@st.composite
+def ref_case(draw, tier):
+    """map_(F, if_then_else(c, dA, dB)): the multiplexed dictionary arrives through a reference that is re-pointed while the run
+    is going. Both dictionaries get the same keys in the same order (so children may survive the switch); F is stateless, and
+    the map output's full value is compared with F applied to the currently selected dictionary at every cycle."""
+    big = tier == "thorough"
+    start = 0
+    horizon = draw(st.integers(5, 24 if big else 14))
+    nk = draw(st.integers(1, 5))
+    scripts = {}
+    for name, base in (("dA", 0), ("dB", 100)):
+        sc = [[start, [{"k": "D", "ops": [["set", k, base + k] for k in range(1, nk + 1)]}]]]
+        for t in range(start + 1, start + horizon):
+            ks = draw(st.lists(st.integers(1, nk), unique=True, max_size=2)) if draw(st.integers(0, 2)) == 0 else []
+            if ks:
+                sc.append([t, [{"k": "D", "ops": [["set", k, base + 10 * t + k] for k in ks]}]])
+        scripts[name] = sc
+    c = [[t, [{"k": "set", "v": draw(st.booleans())}]] for t in draw(gen.time_set(start, start + horizon - 1, 1, 6))]
+    return {"kind": "ref", "start": start, "end": start + horizon, "dA": scripts["dA"], "dB": scripts["dB"], "c": c,
+            "coef": draw(st.integers(1, 3)), "bias": draw(st.integers(0, 5))}
+
+
 def strategy(tier):
-    return st.one_of(case(tier), case(tier), case(tier), nested_case(tier), tsl_case(tier), keys_case(tier))
+    return st.one_of(case(tier), case(tier), case(tier), nested_case(tier), tsl_case(tier), keys_case(tier), ref_case(tier))
+
+
+def check_ref(case, ctx) -> Result:
+    res = Result()
+    start, end = case["start"], case["end"]
+    F = {"params": ["TS[int]"], "names": ["x"], "out": "TS[int]", "ret": "f", "stmts": [
+        {"id": "f", "op": "node", "ins": [{"arg": 0}], "out": "TS[int]", "fn": "sum", "coef": [case["coef"]], "bias": case["bias"], "log_inputs": False}]}
+    stmts = [{"id": "c", "op": "src", "schema": "TS[bool]", "script": case["c"]},
+             {"id": "dA", "op": "src", "schema": "TSD[int,TS[int]]", "script": case["dA"]},
+             {"id": "dB", "op": "src", "schema": "TSD[int,TS[int]]", "script": case["dB"]},
+             {"id": "clk", "op": "src", "schema": "TS[int]", "script": [[t, [{"k": "set", "v": t}]] for t in range(start, end)]},
+             {"id": "sel", "op": "op", "name": "if_then_else", "args": [{"ts": "c"}, {"ts": "dA"}, {"ts": "dB"}], "has_out": True},
+             {"id": "m", "op": "op", "name": "map_", "args": [{"fn": "F"}, {"ts": "sel"}], "has_out": True},
+             {"id": "rec", "op": "node", "ins": ["m", "clk"], "deep": True, "valid": []}]
+    resp = ctx.run({"start": start, "end": end, "stmts": stmts, "subs": {"F": F}})
+    if resp.get("crash"):
+        res.violations.append(Viol("engine_crash", f"map_ over a re-pointed dictionary: worker died {resp.get('signal')} {resp.get('stderr', '')[-500:]}"))
+        return res
+    if not resp.get("built"):
+        raise Rejected(f"C10 generator produced a re-pointed-dictionary program the tree rejects: {resp.get('error')}")
+    feats = {"dictionary_through_reference": True}
+    if resp.get("error"):
+        res.violations.append(Viol("run_failed", f"map_ over a re-pointed dictionary threw: {resp['error']}", feats))
+        return res
+    got, got_mod = {}, {}
+    for d in Trace(resp["trace"]).evals_of("rec", "r"):
+        i = d["ins"][0]
+        got[d["t"]] = {k: c_.get("val") for k, c_ in ((i.get("acc") or {}).get("ch") or []) if c_.get("v")} if i.get("v") else {}
+        if i.get("m"):
+            got_mod[d["t"]] = {k for k, _ in ((i.get("dv") or {}).get("modified") or [])}
+    cur = {"dA": {}, "dB": {}}
+    ops_at = {n: {t: ops for t, ops in case[n]} for n in ("dA", "dB")}
+    c_at = {t: ops[-1]["v"] for t, ops in case["c"]}
+    sel, flips, solo = None, 0, False
+    for t in range(start, end):
+        ticked = {"dA": set(), "dB": set()}
+        for n in ("dA", "dB"):
+            for op in ops_at[n].get(t, []):
+                for _, k, v in op["ops"]:
+                    cur[n][k] = v
+                    ticked[n].add(k)
+        if t in c_at:
+            new = "dA" if c_at[t] else "dB"
+            if sel is not None and new != sel:
+                flips += 1
+                if not ticked[new] or len(ticked[new]) < len(cur[new]):
+                    solo = True
+            sel = new
+        exp = {k: case["coef"] * v + case["bias"] for k, v in cur[sel].items()} if sel else {}
+        if t not in got:
+            res.violations.append(Viol("run_failed", f"t={t}: the recorder bound to the map output and a metronome did not run", feats))
+            break
+        if got[t] != exp:
+            bad = sorted(k for k in set(exp) | set(got[t]) if exp.get(k) != got[t].get(k))
+            res.violations.append(Viol("key_stream_value_differs", f"t={t}: map_(F, if_then_else(c, dA, dB)) holds {got[t]} but F over the selected dictionary ({sel}: {cur[sel] if sel else None}) gives {exp} (keys {bad}); selection history {sorted(c_at.items())[:8]}", feats))
+            break
+        if sel and ticked[sel] and not ticked[sel] <= got_mod.get(t, set()):
+            res.violations.append(Viol("key_tick_missing", f"t={t}: elements {sorted(ticked[sel])} of the selected dictionary {sel} ticked but the map output's delta lists only {sorted(got_mod.get(t, set()))}", feats))
+            break
+    res.nontrivial = flips >= 1 and solo
+    res.labels.append("dictionary_through_reference")
+    if flips:
+        res.labels.append("reference_repointed")
+    res.summary = {"flips": flips}
+    return res
 
 
 def check_keys(case, ctx) -> Result:
@@ -547,6 +634,8 @@ def check(case, ctx) -> Result:
         return check_tsl(case, ctx)
     if case.get("kind") == "keys":
         return check_keys(case, ctx)
+    if case.get("kind") == "ref":
+        return check_ref(case, ctx)
     res = Result()
     start, end = case["start"], case["end"]
     F = case["F"]
